@@ -36,6 +36,7 @@ Depart ==
   /\ \/ \E d \in DatasetClasses \ {"valid"} : c' = [c EXCEPT !.dataset = d]
      \/ \E s \in {"top", "group"}, n \in NameClasses \ {"valid"} : c' = [c EXCEPT !.saveto = (c.saveto \ {<<s, "valid">>}) \cup {<<s, n>>}]
      \/ c' = [c EXCEPT !.nrows = 2]
+     \/ c' = [c EXCEPT !.nrows = 3]          \* (3: two rows, the second without a dataset name but otherwise filled)
      \/ c' = [c EXCEPT !.extracol = TRUE]
      \/ (c.saveto # {} /\ c' = [c EXCEPT !.sheet = FALSE])
 Keep == phase = "pick" /\ phase' = "done" /\ UNCHANGED c
